@@ -15,37 +15,41 @@ import (
 
 type Options struct {
 	Individuals, Places, Families, Surnames, Sources, Statistics bool
-	Visibility                                                 string // show | hide | placeholder
-	Jobs                                                       int
+	Visibility                                                   string // show | hide | placeholder
+	Jobs                                                         int
 	// FailAt > 0: the k-th WriteFile call (1-based) returns an error.
 	FailAt int
+	// FailFrom > 0: the k-th and every later WriteFile call return an error (a full disk,
+	// an output directory that disappeared).
+	FailFrom int
 }
 
 func All(vis string, jobs int) Options {
-	return Options{true, true, true, true, true, true, vis, jobs, 0}
+	return Options{true, true, true, true, true, true, vis, jobs, 0, 0}
 }
 
 // FromMask selects page groups from the low six bits.
 func FromMask(mask int, vis string, jobs int) Options {
-	return Options{mask&1 != 0, mask&2 != 0, mask&4 != 0, mask&8 != 0, mask&16 != 0, mask&32 != 0, vis, jobs, 0}
+	return Options{mask&1 != 0, mask&2 != 0, mask&4 != 0, mask&8 != 0, mask&16 != 0, mask&32 != 0, vis, jobs, 0, 0}
 }
 
 type Result struct {
-	Names   []string          // in the order handed to the writer, duplicates kept
-	Files   map[string][]byte // last write wins
-	Writes  map[string]int
-	Kinds   map[string][]string // the component types handed to the writer under each name
-	Err     error
-	Panics  []string // panics while rendering a file (recovered inside the writer)
-	Panic   string   // panic in NewPublisher / Publish on the calling goroutine
-	Calls   int
-	Failed  bool // the injected failure was returned
+	Names  []string          // in the order handed to the writer, duplicates kept
+	Files  map[string][]byte // last write wins
+	Writes map[string]int
+	Kinds  map[string][]string // the component types handed to the writer under each name
+	Err    error
+	Panics []string // panics while rendering a file (recovered inside the writer)
+	Panic  string   // panic in NewPublisher / Publish on the calling goroutine
+	Calls  int
+	Failed bool // the injected failure was returned
 }
 
 type writer struct {
-	mu     sync.Mutex
-	res    *Result
-	failAt int
+	mu       sync.Mutex
+	res      *Result
+	failAt   int
+	failFrom int
 }
 
 var ErrInjected = fmt.Errorf("injected write failure")
@@ -55,7 +59,7 @@ func (w *writer) WriteFile(file *core.File) (err error) {
 	w.res.Calls++
 	call := w.res.Calls
 	w.mu.Unlock()
-	if w.failAt > 0 && call == w.failAt {
+	if (w.failAt > 0 && call == w.failAt) || (w.failFrom > 0 && call >= w.failFrom) {
 		w.mu.Lock()
 		w.res.Failed = true
 		w.mu.Unlock()
@@ -104,6 +108,6 @@ func Publish(doc *gedcom.Document, o Options) (res *Result) {
 		jobs = 1
 	}
 	p := html.NewPublisher(doc, opts)
-	res.Err = p.Publish(&writer{res: res, failAt: o.FailAt}, jobs)
+	res.Err = p.Publish(&writer{res: res, failAt: o.FailAt, failFrom: o.FailFrom}, jobs)
 	return res
 }
